@@ -76,7 +76,32 @@ fn run_sequence(transfers: &[Transfer], seq: &[Sym]) -> Result<String, String> {
     let mut m = RefReceiver::new();
     let mut handed = vec![0usize; transfers.len()];
     let mut class = String::new();
+    // Messages that belong to no transfer at all: part numbers out of range or an impossible
+    // part count (transfer index 5). They must be refused and never hand anything out; one that
+    // names a tick older than the newest seen must change nothing at all; after one for the
+    // current or a newer tick the check no longer insists that the interrupted transfer
+    // completes (the property says nothing about it) - but whatever is handed out must still be
+    // the original data, tick, base tick and checksum, at most once.
+    let cur = &transfers[0];
+    let garbage_data = [1u8, 2, 3];
+    let g = |tick: i32, num_parts: i32, part: i32| libtw2_gamenet_snap::Snap { tick, delta_tick: 7, num_parts, part, crc: cur.crc.wrapping_add(1), data: &garbage_data };
+    let ncur = all[0].len() as i32;
+    let garbage = [g(cur.tick, ncur + 1, ncur + 1), g(cur.tick, ncur.max(2), -1), g(transfers.get(3).unwrap_or(cur).tick, 2, 2), g(transfers.get(1).unwrap_or(cur).tick, 2, 5), g(cur.tick, 33, 0), g(cur.tick, -1, 0)];
+    let mut lenient = false;
     for &(ti, pi) in seq {
+        if ti == 5 {
+            let gm = garbage[pi];
+            let mut w: Vec<Warning> = Vec::new();
+            match r.snap(&mut w, gm) {
+                Err(_) => {}
+                Ok(x) => return Err(format!("a message with part {} of {} was not refused ({})", gm.part, gm.num_parts, if x.is_some() { "data handed out" } else { "accepted" })),
+            }
+            if m.newest.map(|n| gm.tick >= n).unwrap_or(true) {
+                lenient = true;
+            }
+            class.push('g');
+            continue;
+        }
         let t = &transfers[ti];
         let msg = all[ti][pi];
         let nparts = all[ti].len();
@@ -87,7 +112,7 @@ fn run_sequence(transfers: &[Transfer], seq: &[Sym]) -> Result<String, String> {
             SnapMsg::SnapEmpty(s) => r.snap_empty(&mut w, s),
         };
         let exp = m.feed(t.tick, pi, nparts);
-        if !w.is_empty() {
+        if !w.is_empty() && !lenient {
             return Err(format!("warnings {:?} for a consistent transfer (tick {} base {} part {}/{})", w, t.tick, t.base, pi, nparts));
         }
         match (got, exp) {
@@ -108,6 +133,7 @@ fn run_sequence(transfers: &[Transfer], seq: &[Sym]) -> Result<String, String> {
             (Ok(Some(rd)), Expect::Nothing) => {
                 return Err(format!("data for tick {} handed out although the reference receiver expects nothing (message tick {} part {})", rd.tick, t.tick, pi));
             }
+            (Ok(None), Expect::HandOut) | (Err(_), Expect::HandOut) if lenient => class.push('?'),
             (Ok(None), Expect::HandOut) | (Err(_), Expect::HandOut) => {
                 return Err(format!("all parts of tick {} were received but nothing was handed out", t.tick));
             }
@@ -181,6 +207,9 @@ fn main() {
         assert_eq!(nparts, n.max(1));
         let mut alphabet: Vec<Sym> = (0..nparts).map(|p| (0, p)).collect();
         alphabet.extend_from_slice(&[(1, 0), (2, 0), (3, 0), (4, 0)]);
+        if nparts <= 3 && far.is_none() {
+            alphabet.extend((0..6).map(|k| (5usize, k)));
+        }
         let a = alphabet.len();
         let maxlen = nparts + 2;
         let total: usize = (1..=maxlen).map(|d| a.pow(d as u32)).sum();
@@ -199,7 +228,7 @@ fn main() {
                     i /= a;
                 }
                 lc.eval();
-                let case = || json!({"tick": tick, "base_tick": base, "data_len": len, "parts": nparts, "sequence_transfer_part": seq, "transfers": ["current", "older 2-part", "older single", "newer 2-part", "newer single"], "ticks_of_the_other_transfers": far});
+                let case = || json!({"tick": tick, "base_tick": base, "data_len": len, "parts": nparts, "sequence_transfer_part": seq, "transfers": ["current", "older 2-part", "older single", "newer 2-part", "newer single", "messages with impossible part numbers / counts"], "ticks_of_the_other_transfers": far});
                 match vp_core::catch(|| run_sequence(&transfers, &seq)) {
                     Ok(Ok(c)) => {
                         let h = c.matches('H').count();
@@ -277,7 +306,7 @@ fn main() {
     run.assume("messages are produced by the real sender (snap::delta_chunks); tick/base pairs are those for which the sender's own subtraction does not overflow");
     run.assume("for more than the exhaustive part count only listed permutation families (identity, reverse, every rotation, evens-then-odds, each with single duplications) are run - labelled as families, not exhaustive");
     run.finish(
-        &format!("for every part count n <= {} (data lengths on both sides of every 900-byte boundary, 6 tick/base pairs; for n <= 3 additionally 71 tick/base pairs on both sides of every integer-length boundary, with far and near bases, positive and negative checksums, and 5 settings in which the older / newer ticks are more than 2^31 away from the current one, negative ticks included): all sequences of length <= n+2 over the alphabet {{each part of the current tick, a part of an older 2-part transfer, an older single-part message, a part of a newer 2-part transfer, a newer single-part message}} against a reference receiver (set of part numbers for the newest tick): hand-out exactly when complete, exactly once, with original data/tick/absolute base/crc, zero warnings; listed permutation families up to 32 parts", maxn),
+        &format!("for every part count n <= {} (data lengths on both sides of every 900-byte boundary, 6 tick/base pairs; for n <= 3 additionally 71 tick/base pairs on both sides of every integer-length boundary, with far and near bases, positive and negative checksums, and 5 settings in which the older / newer ticks are more than 2^31 away from the current one, negative ticks included): all sequences of length <= n+2 over the alphabet {{each part of the current tick, a part of an older 2-part transfer, an older single-part message, a part of a newer 2-part transfer, a newer single-part message; for n <= 3 also six messages with impossible part numbers or part counts for the current, a newer and an older tick, which must be refused, never hand out anything and - for an older tick - change nothing}} against a reference receiver (set of part numbers for the newest tick): hand-out exactly when complete, exactly once, with original data/tick/absolute base/crc, zero warnings; listed permutation families up to 32 parts", maxn),
         true,
     );
 }
